@@ -184,7 +184,7 @@ def pipeline_section(ctx, q):
                 ev, items, outcome = framer_io.run_framer(data, s0["kind"], s0["rsize"], s0["skip"], chooser=script, max_items=len(want) + 2, via=dobj,
                                                           gen_kwargs={"parse_bad_pkts": parse_bad, "yield_unrecognized_packet_errors": yield_unrec,
                                                                       "root_container_name": "ROOT"})
-            nw = sum(1 for x in w if "did not match the length of data available" in str(x.message))
+            nw = core.flag_warnings(w)
             prob = None
             if outcome != "stop":
                 prob = f"generator {outcome}; model terminates with {len(want)} items"
